@@ -462,6 +462,26 @@ pub fn radix_families() -> Vec<Value> {
     out
 }
 
+/// Radix literals followed by something that is not a digit of the radix (one character, two, a separator, a
+/// fraction, a suffix), for short literals, for literals of exactly 64 bits and for literals whose leading 64 bits
+/// are already full when the tail comes: a scanner that stops validating once it has what it needs, or that
+/// swallows the character that ended the digits, accepts exactly these.
+pub fn radix_tails() -> Vec<Value> {
+    let mut out = Vec::new();
+    let bodies = [("0x", vec!["1", "ff", "ffffffffffffffff", "1ffffffffffffffff", "10000000000000000", "80000000000004001", "ffffffffffffffffffff"]),
+                  ("0o", vec!["7", "17", "1777777777777777777777", "3777777777777777777777", "10000000000000000020001"]),
+                  ("0b", vec!["1", "101", "1111111111111111111111111111111111111111111111111111111111111111", "11111111111111111111111111111111111111111111111111111111111111111"])];
+    for (pre, bs) in bodies.iter() {
+        for b in bs {
+            for tail in ["g", "gg", "8", "2", "9", "_", "_f", ".", ".8", "n", "L", "u", " 1", "x", "e1", "p1", "h", "+", "-1", "\u{660}", "\u{ff11}"] {
+                out.push(Value::String(format!("{}{}{}", pre, b, tail)));
+            }
+            out.push(Value::String(format!("{}{}", pre, b)));
+        }
+    }
+    dedup(out)
+}
+
 /// Every scalar class wrapped in arrays of depth 1 and 2 ("[x] is x" holds for the string form of x, not
 /// for x itself: [true] is "true", which is no number).
 pub fn wrapped_scalars() -> Vec<Value> {
@@ -802,6 +822,9 @@ pub fn long_number_texts() -> Vec<Value> {
         1.7976931348623157e308, 2.2250738585072014e-308, 1.2345678901234567e100, 1.2345678901234567e-100, 1.2345678901234567e-7, 9.88131291682493e-324, 2.2250738585072009e-308,
         1.2345678901234568e20, 1.2345678901234567e21, 123456789012345.67, 0.00001234567890123456, 1.0000000000000002, 4.35, 0.1, 1e21, 1e-7, 123456789012345680.0, 5e-324, 1.7976931348623155e308,
         4.9406564584124654e-324, 0.30000000000000004, 1e300, 1.5e-300,
+        // the decades in which ECMAScript's Number::toString and JSON text switch between positional and
+        // exponent notation at different places
+        1e-6, 1.5e-6, 9.999e-6, 1e-5, 1.5e-5, 1e-7, 9.9e-7, 1e15, 1e16, 1.5e16, 1e17, 1.5e18, 1e19, 1e20, 9.9e20, 1.5e21, 1e22, 123456789012345678.0, 0.000001, 0.0000015,
     ];
     let neg: Vec<f64> = fs.iter().map(|f| -f).collect();
     fs.extend(neg);
